@@ -82,7 +82,8 @@ def gen_node(rng, depth, used, in_seq, array_in_seq):
     dimn = []
     for _ in range(rank):
         dimn.append(fresh(rng, u))
-    return ("grid", gname, rng.choice(DTYPES[:10]), shape, tuple(dimn), [rng.choice(DTYPES[:10]) for _ in range(rank)])
+    return ("grid", gname, rng.choice(DTYPES[:10]), shape, tuple(dimn), [rng.choice(DTYPES[:10]) for _ in range(rank)],
+            rng.random() < 0.7)
 
 
 def has_array_in_seq(node, in_seq=False):
@@ -112,10 +113,11 @@ def build(node, nrec=()):
             c = build(k, nrec + (2,))
             sq[c.name] = c
         return sq
-    _, name, dt, shape, dimn, mdt = node
+    _, name, dt, shape, dimn, mdt = node[:6]
+    named = node[6] if len(node) > 6 else True
     g = GridType(name)
     from pydap.lib import _quote
-    g[name] = BaseType(name, np.zeros(shape, dtype=dt), dims=tuple(_quote(d) for d in dimn))
+    g[name] = BaseType(name, np.zeros(shape, dtype=dt), dims=tuple(_quote(d) for d in dimn) if named else ())
     for d, n, t in zip(dimn, shape, mdt):
         g[d] = BaseType(d, np.zeros(n, dtype=t))
     return g
@@ -162,9 +164,10 @@ def expected(node, q, in_seq=False):
         return ("base", q(name), ty, tuple(shape), dn)
     if kind in ("struct", "seq"):
         return (kind, q(node[1]), tuple(expected(k, q, in_seq or kind == "seq") for k in node[2]))
-    _, name, dt, shape, dimn, mdt = node
+    _, name, dt, shape, dimn, mdt, named = node
     import numpy as np
-    arr = ("base", q(name), TYPES[np.dtype(dt).char][1], tuple(shape), tuple(q(d) for d in dimn))
+    adims = tuple(q(d) for d in dimn) if named else ((q(name),) if len(shape) == 1 else ())
+    arr = ("base", q(name), TYPES[np.dtype(dt).char][1], tuple(shape), adims)
     maps = tuple(("base", q(d), TYPES[np.dtype(t).char][1], (n,), (q(d),)) for d, n, t in zip(dimn, shape, mdt))
     return ("grid", q(name), arr, maps)
 
@@ -229,7 +232,11 @@ def gen_foreign(rng, depth, used, grid_ok=True):
             d += "x"
         u.add(d)
         dn.append(d)
-    at, ae = foreign_base(rng, name, list(zip(dn, shape)))
+    if rng.random() < 0.3:
+        at = rcase(rng, "Float32") + " " + name + "".join("[%d]" % n for n in shape) + ";"
+        ae = ("base", name, "Float32", tuple(shape), ())
+    else:
+        at, ae = foreign_base(rng, name, list(zip(dn, shape)))
     maps = [foreign_base(rng, d, [(d, n)]) for d, n in zip(dn, shape)]
     text = (rcase(rng, "Grid") + ws(rng) + "{" + ws(rng) + rcase(rng, "Array") + ws(rng) + ":" + ws(rng) + at + ws(rng) +
             rcase(rng, "Maps") + ws(rng) + ":" + ws(rng) + "".join(t + ws(rng) for t, _ in maps) + "}" + ws(rng) + name + ";")
@@ -331,6 +338,19 @@ def main():
             direct.append({"law": "parsing the printed DDS yields the same kinds, names, order, element types, shapes and dimension names",
                            "dataset": repr((dsname, kids)), "dds": text, "parsed": repr(got)[:1500], "expected": repr(want)[:1500]})
         again = "".join(dds(p))
+        # parsing is a function of the text: edit the first result in place, parse the same text again
+        try:
+            if len(list(p.keys())):
+                del p[list(p.keys())[0]]
+            p["zz_added"] = build(("base", "zz_added", "i4", (2,), None))
+            p2, err2 = parse(text)
+            got2 = None if err2 is not None else tuple(plain(c) for c in p2.children())
+            if p2 is p or got2 != want:
+                direct.append({"law": "parsing the printed DDS yields the declared tree - whatever was parsed (and edited) before",
+                               "dds": text, "second_parse": repr(got2)[:1200], "expected": repr(want)[:1200], "same_object": p2 is p})
+        except Exception as e:  # noqa
+            direct.append({"law": "parsing the printed DDS yields the declared tree - whatever was parsed (and edited) before",
+                           "dds": text, "error": repr(e)[:200]})
         if again != text:
             if flawed and "C07-array-in-sequence" in kf:
                 known_hit = known_hit or text
